@@ -443,14 +443,24 @@ def r_wrap_reduce(e, R):
     if not tests or len(rets) != 2:
         R.fail("R-WRAP-REDUCE", rd.short, "keep_wrapper branches", "__reduce__ no longer branches on keep_wrapper", e.loc(rd, rd.node))
         return
+    tests = [t_ for t_ in tests if all(g.on_branch(r, t_, "T") or g.on_branch(r, t_, "F") for r in rets)] or tests
     t = tests[0]
+    # the payload: the name shipped by the returns; every definition of it must be a cloudpickle.dumps(self._obj)
+    # executed by THIS invocation (a payload cached on the wrapper goes stale when the wrapped object changes)
     payload = None
-    for n in func_nodes(rd):
-        if isinstance(n, ast.Assign) and isinstance(n.value, ast.Call) and norm(n.value.func) == "dumps" and norm(n.value.args[0]) == f"{selfn}._obj":
-            payload = n.targets[0].id
-    R.check(payload is not None and any(v == ("ext", "cloudpickle.dumps") for n in func_nodes(rd) if isinstance(n, ast.Call) and norm(n.func) == "dumps"
-                                        for v in e.pt.ev(rd, n.func)), "R-WRAP-REDUCE", "the payload is cloudpickle.dumps of the wrapped object", rd.short, "dumps(self._obj)",
-            "the wrapped object is not serialised with cloudpickle", e.loc(rd, rd.node))
+    for r in rets:
+        v = r.ast.value
+        if isinstance(v, ast.Tuple) and len(v.elts) == 2 and isinstance(v.elts[1], ast.Tuple) and v.elts[1].elts and isinstance(v.elts[1].elts[0], ast.Name):
+            payload = v.elts[1].elts[0].id
+    defs = e.local_defs(rd, payload) if payload else []
+    fresh = bool(defs) and all(isinstance(d, ast.Call) and norm(d.func) == "dumps" and d.args and norm(d.args[0]) == f"{selfn}._obj"
+                               and any(v == ("ext", "cloudpickle.dumps") for v in e.pt.ev(rd, d.func)) for d in defs)
+    R.check(fresh, "R-WRAP-REDUCE", "the payload is cloudpickle.dumps(self._obj) computed by this very call", rd.short,
+            "; ".join(norm(d)[:50] for d in defs) or "payload", "the pickled payload is not (always) a fresh cloudpickle.dumps of the wrapped object: "
+            "a cached payload ships a stale snapshot once the wrapped object has changed (second and later round trips)", e.loc(rd, rd.node))
+    muts = [n for n in func_nodes(rd) if isinstance(n, ast.Attribute) and isinstance(n.ctx, ast.Store) and isinstance(n.value, ast.Name) and n.value.id == selfn]
+    R.check(not muts, "R-WRAP-REDUCE", "__reduce__ does not modify the wrapper", rd.short, norm(muts[0]) if muts else "",
+            "pickling has a side effect on the wrapper (state cached on it)", e.loc(rd, rd.node))
     for r in rets:
         keep = g.on_branch(r, t, "T")
         v = r.ast.value
